@@ -66,11 +66,9 @@ int vh_log_i; double vh_log_d;
 #include "mem_stubs.h"
 int_t vh_permc_final[N] = VH_PERMC;
 int vh_pat_at(int i, int j) { return (int)(((unsigned long)PAT >> (i + j * N)) & 1UL); }
-#ifndef VH_NR
+/* the arrays are always laid out column-wise from PAT; for VH_NR the very same arrays are handed over as the
+   row-wise storage of A = (that matrix)^T, so the column-wise matrix that gets factored has pattern PAT either way */
 int vh_fpat_at(int i, int j) { return vh_pat_at(i, j); }
-#else
-int vh_fpat_at(int i, int j) { return vh_pat_at(j, i); }
-#endif
 #include "pivot_stub.h"
 #include "refblas.h"
 int_t sp_ienv(int_t ispec)
